@@ -168,6 +168,40 @@ def spacing_source_rules(prog, rep):
     rep.ob("R2", "getTargetParameter reads nonorthogonal_* keys from the non-orthogonal options and all other keys from the user options", ok, g.site(), "", key="spacings/target-parameter")
 
 
+def option_read_rules(prog, rep, rp):
+    """During a redistribution every part of the code must see the *new* non-orthogonal settings:
+    the equilibrium's copy is replaced before any region is regridded, and region-level code
+    reads the region's own copy (which distributePointsNonorthogonal resets first), never the
+    equilibrium-level one (which is a different object with its own update time)."""
+    mod = rp.module
+    order = []
+    for s in rp.node.body:
+        t = T(mod, s)
+        if K("self.equilibrium.resetNonorthogonalOptions(") in t:
+            order.append("reset")
+        elif isinstance(s, ast.For) and "distributePointsNonorthogonal" in t:
+            order.append("loop")
+    rep.ob("R1", "redistributePoints replaces the equilibrium's non-orthogonal options before it regrids the regions", order == ["reset", "loop"], rp.site(),
+           "" if order == ["reset", "loop"] else "definite: order of option reset and region loop is %s" % order, key="reset/order")
+    bad = []
+    nreads = 0
+    for m_ in (prog.module(EQ), prog.module(MESH)):
+        for qn, f_ in m_.funcs.items():
+            if f_.cls not in ("EquilibriumRegion", "MeshRegion", "PsiContour") or f_.name == "__init__":
+                continue  # a constructor takes its first copy from the equilibrium: nothing can be out of step yet
+            for x in ast.walk(f_.node):
+                if isinstance(x, ast.Attribute) and x.attr == "nonorthogonal_options":
+                    nreads += 1
+                    base = T(m_, x.value)
+                    if base not in ("self", "self.equilibriumRegion"):
+                        bad.append((f_, x, base))
+    for f_, x, base in bad:
+        rep.ob("R1", "%s reads the non-orthogonal options of its own region" % f_.qualname, False, f_.site(x),
+               "definite: reads `%s.nonorthogonal_options`, a copy that is updated at a different time than the region's" % base, key="reset/read/%s/%s" % (f_.qualname, base))
+    rep.ob("R1", "region-level code reads only the region's own copy of the non-orthogonal options (%d reads)" % nreads, not bad, EQ, "", key="reset/read/none")
+    rep.floor("R1.option-reads", nreads, 10)
+
+
 def cache_rules(prog, rep):
     """every PsiContour method that changes the point list invalidates (or replaces) the cached
     distance (also a premise of C05: hy and poloidal_distance are read from that cache)"""
@@ -277,6 +311,7 @@ def run(rep, tier):
     ok = "self.sfunc_orthogonal_list" in T(d.module, d.node) and "sfunc_orthogonal_list" not in stores(d)
     rep.ob("R2", "redistribution reads the stored orthogonal spacing functions and does not rebuild them", ok, d.site(), "", key="firstbuild/sfunc-read")
     spacing_source_rules(prog, rep)
+    option_read_rules(prog, rep, rp)
     cache_rules(prog, rep)
     rep.notes.append("advisory: getRegridded -> temporaryExtend -> prepend/append resets the fine contour when guard points are added, so the fine contour is rebuilt from the current (history-dependent) coarse points; equality holds only within the refinement tolerance and is not decidable statically")
     rep.undecided("equality within tolerance of regridded and freshly built grids")
